@@ -108,7 +108,7 @@ fn acc_code(_s: &GSpec, g: &Grammar, ri: usize, ty1: &str, out: &mut String) {
 
 fn grammar_module(s: &GSpec, out: &mut String) {
     let src = s.src();
-    let g = Grammar::load(&src).expect("validated");
+    let g = Grammar::load(&s.src_plain()).expect("validated");
     let m = format!("g_{}", s.id);
     let _ = writeln!(out, "#[allow(non_snake_case, non_camel_case_types, dead_code, unused_imports, clippy::all)]");
     let _ = writeln!(out, "pub mod {} {{", m);
